@@ -117,6 +117,10 @@ def cases_for(rng, tier):
         3, nd=2, bypass_gap_flow_fraction=0.08), 2)
     c['total_power'] = 2.5e5
     c['power_scaling_factor'] = 0.8
+    # boundary condition given as a temperature rise: the flow rate is
+    # derived from each time point's power at set-up
+    c['assign'] = [[a[0], a[1], a[2], {'DELTA_TEMP': 120.0}]
+                   for a in c['assign']]
     c['types']['a1']['FuelModel'] = copy.deepcopy(FUEL)
     t = scenarios.add_regions(bundle_type(2), 0.6,
                               lower=dict(model='simple', vf_coolant=0.3),
@@ -133,6 +137,12 @@ def cases_for(rng, tier):
                  't2': {'type': 'duct_mw', 'assemblies': [1],
                         'axial_positions': [0.3]}}})
     trackcheck.with_pins(c)
+    # mixed kinds of boundary condition in the core
+    for i, a in enumerate(c['assign']):
+        if i % 3 == 1:
+            a[3] = {'OUTLET_TEMP': 760.0 + 5 * i}
+        elif i % 3 == 2:
+            a[3] = {'DELTA_TEMP': 110.0}
     if tier == 'thorough':
         single('rod2-adiabatic-4tp', bundle_type(2), 4, gap='none')
         c = single('rod3-sodium-2tp', bundle_type(3), 2, coolant='sodium',
